@@ -21,7 +21,8 @@ RULE = ('JSON: dictionaries with int (incl. negative, zero) and non-integer-like
         'incl. NUL/DEL, quote and backslash, Latin-1, BMP incl. U+2028 / noncharacters, astral, and LONE SURROGATES - '
         'what os.listdir / os.fsdecode return for a file name that is not valid UTF-8, PEP 383 - which no text encoding '
         'of the file can hold; only a high surrogate directly followed by a low one is left out: the json library '
-        'itself joins the two); the same dictionaries also saved and loaded by a CHILD PROCESS of the real code '
+        'itself joins the two - the text-layer cases (op jsonstr) include them and compare with what the model scanner of '
+        'Model/C18j gives); the same dictionaries also saved and loaded by a CHILD PROCESS of the real code '
         'running under a non-UTF-8 locale (LC_ALL=C, UTF-8 mode off: the locale encoding of path.open(\'w\') / '
         'read_text() is ASCII there). TSV/CSV: row lists over a field alphabet (>= 2 columns in the union; names with spaces, commas, '
         'quotes, a tab in .tsv files) with missing fields and fully empty rows, both delimiters, random integers, '
@@ -35,6 +36,9 @@ ASSUMPTIONS = ['json / base64 / repr of floats are transport: exercised through 
                'parser are modelled (Model/C18c, C18p) and compared with the real libraries on every case',
                'the written files are compared with the model text character by character only as a tally (never an '
                'alarm); load_metadata on a two-column file is checked on the Python side against the Lean spec of the file',
+               'the text written for a str, the strict codecs of the file and the string scanner are modelled code point by '
+               'code point (Model/C18j: json_string_text_ascii, json_string_encodable, json_string_roundtrip) and compared '
+               'with the json library as save_json / load_json use it on every jsonstr case; the file text itself is a tally',
                'strings travel to the Lean driver through an injective escape (tok) of the code points a Lean String / '
                'the JSON pipe cannot carry (surrogates, astral); the model treats str values as opaque',
                'table and parameter files are text in the locale encoding by construction (write_tsv / write_python under '
@@ -405,6 +409,22 @@ def impl(case):
                         same=bool(set(out.keys()) == set(data.keys()) and all(type(k) in (int, str) for k in out) and
                                   all(same(data[k], out[k]) for k in data)),
                         shape={tok(str(k)): shape_of(out[k]) for k in out})
+        if op == 'jsonstr':
+            # the text layer: each str (given by its code points) alone as a value; the file text as the real reader
+            # decodes it, and the value that comes back
+            res = []
+            for cps in case['strings']:
+                sv = ''.join(map(chr, cps))
+                try:
+                    M.save_json(d / 's.json', {'k': sv})
+                    text = (d / 's.json').read_text()
+                    out = M.load_json(d / 's.json')
+                    back = out.get('k')
+                    res.append(dict(text=[ord(c) for c in text], keys=[tok(k) for k in out],
+                                    back=[ord(c) for c in back] if isinstance(back, str) else None))
+                except Exception as e:  # noqa
+                    res.append(dict(raised=type(e).__name__, msg=str(e)[:200]))
+            return res
         if op == 'tsv':
             npf = {'32': np.float32, '64': np.float64}.get(str(case.get('npfloat')), float)
             rows = [{f: (c['int'] if 'int' in c else (npf(c['float']) if 'float' in c else c['text'])) for f, c in r}
@@ -462,6 +482,11 @@ def impl(case):
     raise ValueError(op)
 
 
+# the file json.dump(..., indent=2) writes for {'k': <str>}: prefix, the string literal, suffix
+STR_PREFIX = [ord(c) for c in '{\n  "k": ']
+STR_SUFFIX = [ord(c) for c in '\n}']
+
+
 def lean_key(k):
     return k if 'int' in k else {'str': tok(k['str'])}
 
@@ -474,6 +499,13 @@ def model_query(case, impl_res):
         case['_mems'] = [[] for _ in case['dicts']]
         return dict(p=PID, op='json_many', dicts=[[[lean_key(k), to_lean(v, mem)] for k, v in d]
                                                   for d, mem in zip(case['dicts'], case['_mems'])])
+    if case['op'] == 'jsonstr':
+        bodies = [None] * len(case['strings'])
+        if isinstance(impl_res.get('ok'), list):
+            # the text after the opening quote of the value
+            n = len(STR_PREFIX) + 1
+            bodies = [r['text'][n:] if r.get('text') and r['text'][:n] == STR_PREFIX + [34] else None for r in impl_res['ok']]
+        return dict(p=PID, op='jsonstr', strings=case['strings'], impl_bodies=bodies)
     text = impl_res['ok'].get('text') if isinstance(impl_res.get('ok'), dict) else None
     if case['op'] == 'tsv':
         npf = {'32': np.float32, '64': np.float64}.get(str(case.get('npfloat')), float)
@@ -509,6 +541,32 @@ def judge_json(entries, impl_res, m, mem):
     return None
 
 
+def judge_jsonstr(cps, r, mm):
+    """one str through the real save_json / load_json (`r`) against the text-layer model (`mm`, Model/C18j)"""
+    sv = ''.join(map(chr, cps))
+    in_dom = mm['valid'] and mm['nojoin']
+    if mm['nojoin'] == joins(sv) or not mm['valid']:
+        return 'MACHINERY: the Lean spec NoJoin / ValidStr and the generator disagree'
+    if in_dom and (mm['scanned'] != [cps, STR_SUFFIX] or mm['via_ascii_file'] != [cps, []]):
+        return 'MACHINERY: model scanner does not give the string back (contradicts json_string_roundtrip)'
+    if mm['ascii'] != mm['literal'] or not mm['utf8_ok'] or not all(32 <= b <= 126 for b in mm['literal']):
+        return 'MACHINERY: model literal is not printable ASCII (contradicts json_string_text_ascii)'
+    if mm['scanned'] is None:
+        return 'MACHINERY: model scanner rejects the model literal'
+    if 'raised' in r:
+        # the model says: the literal can be encoded with every codec, so nothing raises
+        return '%s: real code raised %s (%s) saving / loading a one-str dictionary' % (
+            'SPEC' if in_dom else 'CORR', r['raised'], r['msg'])
+    if in_dom and (r['back'] != cps or r['keys'] != ['k']):
+        return 'SPEC: the str did not come back: loaded code points %s, saved %s' % (r['back'], cps)
+    if r['back'] != mm['scanned'][0]:
+        return 'CORR: loaded code points %s, the model scanner gives %s' % (r['back'], mm['scanned'][0])
+    if mm['real_scanned'] is not None and mm['real_scanned'] != [r['back'], STR_SUFFIX]:
+        return 'CORR: the text written by the real code, read by the model scanner, is %s; the real reader gave %s' % (
+            mm['real_scanned'], r['back'])
+    return None
+
+
 def judge(case, impl_res, ans):
     if 'err' in ans:
         return 'MACHINERY: driver error %s' % ans['err']
@@ -534,6 +592,13 @@ def judge(case, impl_res, ans):
                 if w and w.startswith(kind):
                     return asc('%s: in a process with locale encoding %s (%s, UTF-8 mode %s), dictionary %d: %s' % (
                         kind, ok.get('encoding'), case['env'], ok.get('utf8_mode'), i, w.split(': ', 1)[1]))
+        return None
+    if op == 'jsonstr':
+        for cps, r, mm in zip(case['strings'], ok, m['results']):
+            sv = ''.join(map(chr, cps))
+            w = judge_jsonstr(cps, r, mm)
+            if w:
+                return asc('%s (str %a)' % (w, sv))
         return None
     if op == 'tsv':
         if m.get('header') is None:
@@ -603,7 +668,7 @@ def nontrivial(case):
         return any(v['t'] in ('arr', 'list', 'dict') for k, v in case['dict'])
     if case['op'] == 'json_env':
         return any(v['t'] in ('arr', 'list', 'dict') for d in case['dicts'] for k, v in d)
-    if case['op'] == 'number':
+    if case['op'] in ('number', 'jsonstr'):
         return True
     return len(case.get('rows', case.get('data', []))) >= 2
 
@@ -612,6 +677,21 @@ def tally(rep, case, impl_res, ans):
     rep.count('op:' + case['op'])
     if case.get('stale') and case['op'] in ('json', 'tsv', 'simple', 'params'):
         rep.count('path_held_other_contents_read_before')
+    if case['op'] == 'jsonstr' and isinstance(impl_res.get('ok'), list) and isinstance(ans.get('ok'), dict):
+        for cps, r, mm in zip(case['strings'], impl_res['ok'], ans['ok']['results']):
+            rep.count('jsonstr:strings')
+            for c in str_classes(''.join(map(chr, cps))) - {'ascii'}:
+                rep.count('jsonstr:' + c)
+            if not mm['nojoin']:
+                rep.count('jsonstr:high_then_low_surrogate(outside:json_joins_them)')
+            if not mm['raw_utf8_ok']:
+                rep.count('jsonstr:str_not_encodable_as_utf8')
+            if not mm['raw_ascii_ok']:
+                rep.count('jsonstr:str_not_encodable_as_ascii')
+            # mechanism-level tie, never an alarm: is the file the text the model writes, character by character?
+            if 'text' in r:
+                rep.count('jsonstr:file_text_equals_model' if r['text'] == STR_PREFIX + mm['literal'] + STR_SUFFIX
+                          else 'jsonstr:file_text_DIFFERS_from_model')
     if case['op'] == 'json_env':
         ok = impl_res.get('ok') if isinstance(impl_res.get('ok'), dict) else {}
         rep.count('json_env:%s:child_locale_encoding:%s' % (case['env'], ok.get('encoding', 'child_failed')))
@@ -665,7 +745,7 @@ def classify(case, impl_res, ans, why):
 
 
 def shrink(case):
-    key = {'json': 'dict', 'json_env': 'dicts', 'tsv': 'rows', 'simple': 'data', 'params': 'data', 'number': 'strings', 'csv': 'rows'}[case['op']]
+    key = {'json': 'dict', 'json_env': 'dicts', 'jsonstr': 'strings', 'tsv': 'rows', 'simple': 'data', 'params': 'data', 'number': 'strings', 'csv': 'rows'}[case['op']]
     v = case[key]
     if case['op'] == 'json_env' and len(v) > 2:
         yield dict(case, dicts=v[:len(v) // 2])        # every candidate costs one child process: halve first
@@ -790,6 +870,19 @@ def gen(tier, rng):
     # (one interpreter start per case: spread over the stream so that the worker pool runs them side by side)
     envs = [dict(p=PID, op='json_env', env='C', dicts=[str_probe(s) for s in probes[i:i + 16]]) for i in range(0, len(probes), 16)]
     envs += [dict(p=PID, op='json_env', env='C', dicts=[rand_entries(rng) for _ in range(20)]) for _ in range(8 if q else 150)]
+    # the text layer (Model/C18j): single strings, those with a high surrogate directly before a low one included (the
+    # model says what the json library makes of them)
+    cps = lambda t: [ord(c) for c in t]
+    yield dict(p=PID, op='jsonstr', strings=[cps(t) for t in probes + ['\ud83e\udde0', 'a\udbff\udc00b', '\ud800\ud800\udfff\udfff']])
+    for _ in range(6 if q else 200):
+        strings = []
+        for _ in range(40):
+            if rng.random() < .7:
+                strings.append(cps(rand_ustr(rng)))
+            else:       # unrestricted: adjacent surrogates in any order
+                strings.append([ord(rng.pick(CP[rng.pick(['low_surrogate', 'high_surrogate', 'high_surrogate', 'ascii', 'astral', 'bmp'])]))
+                                for _ in range(rng.randrange(1, 6))])
+        yield dict(p=PID, op='jsonstr', strings=strings)
     for i in range(1500 if q else 30000):
         if i % 40 == 0 and envs:
             yield envs.pop(0)
